@@ -342,7 +342,8 @@ func (f *Frame) localStructTarget(addr ssa.Value, li *loopInfo) (Term, types.Typ
 	switch a := addr.(type) {
 	case *ssa.Alloc:
 		elem := a.Type().Underlying().(*types.Pointer).Elem()
-		if !isStruct(elem) {
+		if !isStruct(elem) || f.scalarLocal(a) {
+			// not a struct, or a struct-typed local held by value (no heap write at all)
 			return Term{}, nil, false
 		}
 		if li.body[a.Block()] {
